@@ -97,6 +97,8 @@ pub struct Program {
     pub expected: Vec<Option<String>>,
     /// the result is schedule-independent (single-sender mailboxes, single awaits)
     pub confluent: bool,
+    /// probe: line 0 must be REJECTED by the front end (alarm only if it compiles)
+    pub must_reject: bool,
 }
 
 fn fresh(env: &HashMap<String, Vec<u8>>, r: &mut Rng) -> String {
@@ -164,7 +166,7 @@ fn local_body(r: &mut Rng) -> (Vec<String>, Vec<String>, Vec<HV>) {
 fn t_local(r: &mut Rng) -> Program {
     let (mut stmts, outs, outv) = local_body(r);
     stmts.push(format!("[{}]", outs.join(", ")));
-    Program { family: "local", lines: vec![stmts.join(", ")], expected: vec![Some(HV::Tup(outv).canon())], confluent: true }
+    Program { family: "local", lines: vec![stmts.join(", ")], expected: vec![Some(HV::Tup(outv).canon())], confluent: true, must_reject: false }
 }
 
 /// T1b: the same churn inside a spawned (non-persistent) process: its locals are released when it
@@ -173,7 +175,7 @@ fn t_worker_local(r: &mut Rng) -> Program {
     let (stmts, outs, outv) = local_body(r);
     let body = format!("{}, [{}]", stmts.join(", "), outs.join(", "));
     let lines = vec![format!("p = @{{ {body} }}, !p"), "q = @{ 5 }, !q".to_string()];
-    Program { family: "worker-local", lines, expected: vec![Some(HV::Tup(outv).canon()), Some("i5".into())], confluent: true }
+    Program { family: "worker-local", lines, expected: vec![Some(HV::Tup(outv).canon()), Some("i5".into())], confluent: true, must_reject: false }
 }
 
 /// T9: tail calls that carry binaries — a named tail call out of a frame whose locals hold heap
@@ -201,6 +203,7 @@ fn t_tail(r: &mut Rng) -> Program {
         lines: vec![src, "q = @{ 5 }, !q".to_string()],
         expected: vec![Some(HV::Tup(vec![HV::Bin(a), HV::Bin(b)]).canon()), Some("i5".into())],
         confluent: true,
+        must_reject: false,
     }
 }
 
@@ -243,10 +246,10 @@ fn t_spawn(r: &mut Rng) -> Program {
         stmts.push("!p =second".to_string());
         stmts.push("[first, second]".to_string());
         let v = HV::Tup(vals);
-        Program { family: "spawn-captures-reawait", lines: vec![stmts.join(", ")], expected: vec![Some(HV::Tup(vec![v.clone(), v]).canon())], confluent: true }
+        Program { family: "spawn-captures-reawait", lines: vec![stmts.join(", ")], expected: vec![Some(HV::Tup(vec![v.clone(), v]).canon())], confluent: true, must_reject: false }
     } else {
         stmts.push("!p".to_string());
-        Program { family: "spawn-captures", lines: vec![stmts.join(", ")], expected: vec![Some(HV::Tup(vals).canon())], confluent: true }
+        Program { family: "spawn-captures", lines: vec![stmts.join(", ")], expected: vec![Some(HV::Tup(vals).canon())], confluent: true, must_reject: false }
     }
 }
 
@@ -273,7 +276,7 @@ fn t_pipeline(r: &mut Rng) -> Program {
     for s in suffixes {
         out.extend(s);
     }
-    Program { family: "pipeline", lines: vec![stmts.join(", ")], expected: vec![Some(HV::Bin(out).canon())], confluent: true }
+    Program { family: "pipeline", lines: vec![stmts.join(", ")], expected: vec![Some(HV::Bin(out).canon())], confluent: true, must_reject: false }
 }
 
 /// T4: select with a filter (a function with a body, run per message) — the accepted message is
@@ -301,7 +304,7 @@ fn t_filter(r: &mut Rng) -> Program {
     stmts.push("!p".to_string());
     let mut out = msgs[hit].clone();
     out.extend(tail);
-    Program { family: "select-filter", lines: vec![stmts.join(", ")], expected: vec![Some(HV::Bin(out).canon())], confluent: true }
+    Program { family: "select-filter", lines: vec![stmts.join(", ")], expected: vec![Some(HV::Bin(out).canon())], confluent: true, must_reject: false }
 }
 
 /// T5: two receive sources; the higher-priority one is type-only, the lower-priority one is a slow
@@ -314,7 +317,7 @@ fn t_priority(r: &mut Rng) -> Program {
         "slow = #'int {{ | =0 => Ok | [~, 1] __integer_subtract__ ^ }}, p = @{{ ! [#'bin {{ Ok }}, #Str['bin] {{ {spin} slow }}] =first, !#Str['bin] =second, 7 }}, \"hello\" p, [! [{tick}]], {} p, \"world\" p, !p",
         hexlit(&a)
     );
-    Program { family: "select-priority", lines: vec![src], expected: vec![Some("i7".to_string())], confluent: true }
+    Program { family: "select-priority", lines: vec![src], expected: vec![Some("i7".to_string())], confluent: true, must_reject: false }
 }
 
 /// T6: a REPL session — several lines, bindings created, shadowed and dropped (local compaction
@@ -403,7 +406,7 @@ fn t_repl(r: &mut Rng) -> Program {
         lines.push("0x01".into());
         expected.push(Some("b01".into()));
     }
-    Program { family: "repl-session", lines, expected, confluent: true }
+    Program { family: "repl-session", lines, expected, confluent: true, must_reject: false }
 }
 
 /// T7: fan-in — several senders, one receiver that collects all messages (order-insensitive result:
@@ -428,7 +431,7 @@ fn t_fanin(r: &mut Rng) -> Program {
         stmts.push(format!("w{i} = @{{ {} col, 0 }}", hexlit(&m)));
     }
     stmts.push("!col".to_string());
-    Program { family: "fan-in", lines: vec![stmts.join(", ")], expected: vec![Some(HV::Int(total as i64).canon())], confluent: true }
+    Program { family: "fan-in", lines: vec![stmts.join(", ")], expected: vec![Some(HV::Int(total as i64).canon())], confluent: true, must_reject: false }
 }
 
 /// T8: a select that awaits a process with a timeout, and a later failure of the awaited process
@@ -448,7 +451,7 @@ fn t_late_failure(r: &mut Rng) -> Program {
         "!a".to_string(),
     ];
     let v = HV::Tup(vec![HV::Tup(vec![]), HV::Bin(xy)]).canon();
-    Program { family: "late-failure", lines, expected: vec![None, None, Some(v.clone()), None, None, Some(v)], confluent: true }
+    Program { family: "late-failure", lines, expected: vec![None, None, Some(v.clone()), None, None, Some(v)], confluent: true, must_reject: false }
 }
 
 /// T10: a select that completes through ANOTHER source while a filter call on a heap-binary message
@@ -470,7 +473,7 @@ fn t_select_cross(r: &mut Rng) -> Program {
             let src = format!(
                 "{slow}, p = @{{ [! [{t}, #'bin {{ {spin} slow }}]], !#'bin =m, 7 }}, {m1} p, {m2} p, !p"
             );
-            Program { family: "select-cross-timeout", lines: vec![src, tail], expected: vec![Some("i7".into()), Some("i5".into())], confluent: true }
+            Program { family: "select-cross-timeout", lines: vec![src, tail], expected: vec![Some("i7".into()), Some("i5".into())], confluent: true, must_reject: false }
         }
         1 => {
             // an awaited process listed before the filter; it finishes while the filter runs
@@ -478,7 +481,7 @@ fn t_select_cross(r: &mut Rng) -> Program {
             let src = format!(
                 "{slow}, w = @{{ [{qspin} slow], 1 }}, p = @{{ [! [w, #'bin {{ {spin} slow }}]], !#'bin =m, 7 }}, {m1} p, {m2} p, !p"
             );
-            Program { family: "select-cross-await", lines: vec![src, tail], expected: vec![Some("i7".into()), Some("i5".into())], confluent: true }
+            Program { family: "select-cross-await", lines: vec![src, tail], expected: vec![Some("i7".into()), Some("i5".into())], confluent: true, must_reject: false }
         }
         _ => {
             // a higher-priority type-only receive; its message arrives while the filter runs
@@ -486,27 +489,47 @@ fn t_select_cross(r: &mut Rng) -> Program {
             let src = format!(
                 "{slow}, p = @{{ [! [#'int, #'bin {{ {spin} slow }}]], !#'bin =m, 7 }}, {m1} p, {m2} p, [! [{d}]], 3 p, !p"
             );
-            Program { family: "select-cross-typeonly", lines: vec![src, tail], expected: vec![Some("i7".into()), Some("i5".into())], confluent: true }
+            Program { family: "select-cross-typeonly", lines: vec![src, tail], expected: vec![Some("i7".into()), Some("i5".into())], confluent: true, must_reject: false }
         }
     }
 }
 
-/// T11: a tail call inside a tuple field: every iteration abandons the fields built so far on the
-/// operand stack (here: a fresh heap binary each time); they stay rooted until the process ends.
-fn t_tail_in_tuple(r: &mut Rng) -> Program {
-    let n = 2 + r.usize(30);
+/// Probe: a tail call inside a tuple field used to abandon the fields built so far on the operand
+/// stack (lead 3 of round 3); since /repo 9828b30 the front end rejects it ("Tail call inside a tuple
+/// literal is not in tail position"). One fixed program; the check alarms only if it compiles again.
+pub fn probe_tail_in_tuple() -> Program {
+    let src = "g = #'int { | =0 => 0 | [[0x01, 0x02] __binary_concat__, [~, 1] __integer_subtract__ ^] }, p = @{ 7 g }, !p".to_string();
+    Program { family: "probe-tail-in-tuple", lines: vec![src], expected: vec![None], confluent: true, must_reject: true }
+}
+
+/// T11: an ERROR EXIT with values on the operand stack: a tuple whose first field (a fresh heap
+/// binary) is already built when the second field fails. The failed process keeps the operand
+/// (and, built in a block with a binding, its locals) - the finished-process-keeps-operands part
+/// of F17 that is still constructible from source.
+fn t_error_exit(r: &mut Rng) -> Program {
     let a = lit(r);
     let b = lit(r);
-    let src = format!(
-        "g = #'int {{ | =0 => 0 | [[{}, {}] __binary_concat__, [~, 1] __integer_subtract__ ^] }}, p = @{{ {n} g }}, !p",
-        hexlit(&a), hexlit(&b)
-    );
-    Program { family: "tail-in-tuple", lines: vec![src, "q = @{ 5 }, !q".to_string()], expected: vec![Some("i0".into()), Some("i5".into())], confluent: true }
+    let c = lit(r);
+    let src = if r.chance(1, 2) {
+        format!("p = @{{ [[{}, {}] __binary_concat__, 20000000 __binary_new__] }}", hexlit(&a), hexlit(&b))
+    } else {
+        format!(
+            "p = @{{ x = [{}, {}] __binary_concat__, [[x, {}] __binary_concat__, x, 20000000 __binary_new__] }}",
+            hexlit(&a), hexlit(&b), hexlit(&c)
+        )
+    };
+    Program {
+        family: "error-exit-operands",
+        lines: vec![src, "[! [2]]".to_string(), "q = @{ 5 }, !q".to_string()],
+        expected: vec![Some(OK.to_string()), None, Some("i5".into())],
+        confluent: true,
+        must_reject: false,
+    }
 }
 
 pub fn generate(r: &mut Rng) -> Program {
     match r.below(29) {
-        28 => t_tail_in_tuple(r),
+        28 => t_error_exit(r),
         24..=27 => t_select_cross(r),
         0..=2 => t_local(r),
         3..=6 => t_worker_local(r),
